@@ -118,9 +118,17 @@ def single(rng):
                                       "result": res[:40]}, lines, nontrivial=res != proto.enc_tree(pre_tree, canon=True))
 
 
+def strip_uids(n):
+    n.data.pop('uid', None)
+    for c in n.children:
+        strip_uids(c)
+
+
 def sequence(rng):
     seq, collapsed = gen_seq(rng)
     t = mk_tree(rng, plain=True, paired=(any(c[0] == "punctuation_symetrify" for c in seq) and rng.random() < 0.6))
+    if rng.random() < 0.3:
+        strip_uids(t)          # the sequence predicate needs no node identities: node data exactly as the API hands it out
     if not seq:
         seq = [("root_attach", {})]
     src = tx.fresh(t, t.data['sid'])
